@@ -13,11 +13,16 @@
     - capacity arithmetic: capPow2 on uint32 (bit twiddling, mod 2^32 explicit) is the least power
       of two >= n for all n <= 2^31, < 2n; beyond 2^31 it wraps to 0 (tables never get there:
       fewer than 2^31 entities).
-    Not covered by theorems: freeing of empty relation tables by Shrink (the repaired code path:
+    - RELATION WORLDS (Rel2Maint.v), for every state satisfying St2: Shrink never fails, keeps
+      St2, changes no entity's components, values or relation targets, nor pool, index, flags,
+      observers, filters; the only tables whose status changes are EMPTY relation tables, which
+      become free and disappear from every lookup and from the filter cache (the repaired code
+      path); after an unbounded Shrink every empty relation table is free ([C15_shrink_relation_worlds]).
+    Not covered by theorems: (relation-free statement only:) freeing of empty relation tables by Shrink (the repaired code path:
     witness TestWitness_C15_ShrinkFreesRelationTable and the `shrink` correspondence stream with
     the relation-lookup dump), time-limited budgets other than zero (clock dependent). *)
 From Ark Require Import Model.Base Model.Mask Model.Pool Model.Util Model.World Model.Run.
-From Ark Require Import Proofs.UtilProofs Proofs.WF Proofs.StorageA Proofs.ResetShrinkProofs Properties.Common.
+From Ark Require Import Proofs.UtilProofs Proofs.WF Proofs.StorageA Proofs.ResetShrinkProofs Proofs.Rel2Defs Proofs.Rel2Maint Properties.Common.
 
 Theorem C15_shrink_invisible : forall s stop0, St s ->
   exists b s', w_shrink stop0 s = Ok b s' /\ St s' /\ content_same s s' /\ w_pool s' = w_pool s /\
@@ -62,6 +67,16 @@ Example C15_shrink_example :
   end = (false, [(2, 2)]).
 Proof. vm_compute. split; reflexivity. Qed.
 
-Definition C15_all := (C15_shrink_invisible, C15_capacity_bounds, C15_result_exact, C15_converges, C15_cap_pow2,
+Theorem C15_shrink_relation_worlds : forall s stop0, St2 s ->
+  exists b s', w_shrink stop0 s = Ok b s' /\ St2 s' /\ content_same s s' /\ r2d_tgt_same s s' /\
+    w_pool s' = w_pool s /\ w_index s' = w_index s /\ w_istarget s' = w_istarget s /\ side_same s s' /\ frame_user s s' /\
+    length (w_tables s') = length (w_tables s) /\
+    (forall j t, nth_error (w_tables s) j = Some t -> exists t', nth_error (w_tables s') j = Some t' /\ r2d_tfree t t') /\
+    (stop0 = false -> forall j t', nth_error (w_tables s') j = Some t' -> t_rels t' <> [] -> t_len t' = 0 -> t_free t' = true) /\
+    (r2d_KeysLive s -> r2d_KeysLive s').
+Proof. exact D_shrink_spec. Qed.
+Definition C15_relation_example := r2d_ex_shrink_by_theorem.
+
+Definition C15_all := (C15_shrink_relation_worlds, C15_relation_example, C15_shrink_invisible, C15_capacity_bounds, C15_result_exact, C15_converges, C15_cap_pow2,
   C15_cap_pow2_wraps_beyond_2_31).
 Print Assumptions C15_all.
